@@ -40,6 +40,8 @@ TECHNIQUE = TECHNIQUE + "; encapsulation inventory on rustc's effective visibili
 def run(ctx, report):
     _run_rules(ctx, report)
     from .. import shared as _S
+    for config in ctx.configs:
+        report.guard("C18.REJECT", _S.chaining, ctx, report, "C18.REJECT", ctx.facts(config), config, [('with', 'add'), ('with_batch', 'add_batch')])
     report.guard("C18.CONFIGS", _S.configurations, ctx, report, "C18.CONFIGS")
     for config in ctx.configs:
         report.guard("C18.ENCAPSULATED", _S.encapsulated, ctx, report, "C18.ENCAPSULATED", ctx.facts(config), config, "C18")
